@@ -27,6 +27,8 @@ MANIFEST = dict(
                   kind_free_text="trace validation: event log of the real ThreadPool under instrumented jobs, checked by the extracted Coq trace monitor and a Python oracle; rendezvous scenarios must complete")],
 )
 
+MANIFEST["text"] += ' Fourth session: scenarios in which the pool is dropped by the unwinding of its panicking owner thread.'
+
 ASSUMPTIONS = [
     "real parallel execution (as many jobs as workers at the same time) is WITNESSED by rendezvous scenarios that can only complete when m jobs are inside their closure simultaneously; it is not proved (the model proves that such states are reachable and that no lock is held while a job runs)",
     "OS scheduling is sampled, not enumerated: each scenario is one (quick) or several (thorough) runs under randomised submission timing; the theorems quantify over all interleavings of the model's steps",
